@@ -175,7 +175,7 @@ def r_writes(ctx, f):
         ctx.check(good_key, rule, 'put-key#%d' % len(seen), c.loc(), 'written under the re-tagged source key', 'a put of the upgrade uses another key than the re-tagged source key: %s' % show(kt))
         v = c.arg_term(3)
         vs = show(v)
-        if 'promoted' in vs:
+        if 'promoted' in vs or strip(v) == ('tuple', []):
             cls = 'updated-unit'
         elif any(s[0] == 'call' and s[1].endswith("Lazy::<'a, C>::decode") for s in walk(v)) and any(s[0] == 'call' and s[1].endswith('::remap') for s in walk(v)) and 'metadata' not in vs:
             cls = 'item-raw'
